@@ -74,9 +74,13 @@ Print Assumptions C05_unstarted_refuted.
 
 (* ---- the same for the cron configuration (Proofs/VRestProofs.v): for every schedule function and EVERY scheduler
    configuration, at rest (Step in its select, no fire pending) no pending occurrence is due, provided the user has
-   started the timer of the present store - which is necessary in every reachable rest state (VC05_unstarted_strands) *)
+   started the timer of the present store - which is necessary in every reachable rest state (VC05_unstarted_strands) -
+   and the driver answers a DispatchErr with Retry (the store's Pop inside MarkAsDispatched may fail: nothing popped,
+   nothing re-armed; VRestProofs.VC05_rest_no_retry_refuted is the accepted witness without it;
+   VRestProofs.VC05_rest_no_due_faultfree: traces without such a failure need no driver hypothesis) *)
 Theorem C05_cron_at_rest_nothing_is_due : forall nxt sc tr s,
   VSysProofs.vrun nxt sc vsys_init tr = Some s -> VRestProofs.vtimer_started tr = true ->
+  VRestProofs.vtrace_disciplined tr = true ->
   vs_pc s = PSelect -> tm_pending (cr_timer (vs_cron s)) = false ->
   forall p, In p (cr_pending (vs_cron s)) -> inst (vs_now s) < inst (t_sched (pt_task p)).
 Proof. exact VRestProofs.VC05_rest_no_due. Qed.
@@ -85,6 +89,7 @@ Print Assumptions C05_cron_at_rest_nothing_is_due.
 Theorem C05_cron_predicate_holds_at_rest : forall nxt sc tr pending now s,
   let tr' := (tr ++ [VDump pending now true])%list in
   VSysProofs.vrun nxt sc vsys_init tr' = Some s -> VRestProofs.vtimer_started tr' = true ->
+  VRestProofs.vtrace_disciplined tr' = true ->
   tm_pending (cr_timer (vs_cron s)) = false ->
   vc05_ok tr' = true.
 Proof. exact VRestProofs.VC05_predicate_at_rest. Qed.
@@ -143,10 +148,13 @@ Proof. exact VLiveProofs.VC05_no_deadlock. Qed.
 Print Assumptions C05_cron_no_deadlock.
 
 (* ... and comes to rest with every occurrence that was due served (catch-up occurrences included), provided the
-   schedule moves strictly forward and no pending row carries schedule-at-now *)
+   schedule moves strictly forward and no pending row carries schedule-at-now; the driver of tr must have been in order
+   (vdriver_ok: every DispatchErr answered by Retry, or no Pop inside MarkAsDispatched failed); the continuation q
+   itself answers a DispatchErr with Retry(DispatchErr), which finds the task again and dispatches it *)
 Theorem C05_cron_every_due_occurrence_is_served : forall nxt sc tr s,
   (forall e t, inst t < inst (nxt e t)) ->
   VSysProofs.vrun nxt sc vsys_init tr = Some s -> VRestProofs.vtimer_started tr = true ->
+  VRestProofs.vdriver_ok tr = true ->
   (forall p, In p (cr_pending (vs_cron s)) -> existsb VLiveProofs.is_now (pt_muts p) = false) ->
   exists q s', VLiveProofs.driver_only q = true /\ VSysProofs.vrun nxt sc vsys_init (tr ++ q) = Some s'
                /\ vs_pc s' = PSelect /\ tm_pending (cr_timer (vs_cron s')) = false
@@ -157,14 +165,16 @@ Theorem C05_cron_every_due_occurrence_is_served : forall nxt sc tr s,
 Proof. exact VLiveProofs.VC05_every_due_occurrence_is_served_strict. Qed.
 Print Assumptions C05_cron_every_due_occurrence_is_served.
 
-(* both hypotheses are needed: with a schedule-at-now row (under a frozen clock) no driver-only continuation ever
-   rests - which is why the cron pipeline suite excludes such rows *)
+(* both hypotheses are needed: with a schedule-at-now row (under a frozen clock) no driver-only continuation of a
+   driver that is in order ever rests - which is why the cron pipeline suite excludes such rows.  (A driver that
+   answers a failed Pop's DispatchErr with Step does come to "rest", stranded with the head due:
+   VLiveProofs.VC05_spin_stranded.) *)
 Theorem C05_cron_schedule_at_now_never_rests :
   (forall e t, inst t + 60000000000 <= inst (VSysProofs.ex_nxt e t))
   /\ VSysProofs.vrun VSysProofs.ex_nxt scfg_fixed vsys_init VLiveProofs.tr_now = Some VLiveProofs.s_now
   /\ VRestProofs.vtimer_started VLiveProofs.tr_now = true
   /\ map (fun p => pt_muts p) (cr_pending (vs_cron VLiveProofs.s_now)) = [[MNow]]
-  /\ forall q s', VLiveProofs.driver_only q = true ->
+  /\ forall q s', VLiveProofs.driver_only q = true -> VRestProofs.vdriver_ok q = true ->
        VSysProofs.vrun VSysProofs.ex_nxt scfg_fixed VLiveProofs.s_now q = Some s' -> VLiveProofs.at_rest s' = false.
 Proof. exact VLiveProofs.VC05_quiescence_refuted_schedule_at_now. Qed.
 Print Assumptions C05_cron_schedule_at_now_never_rests.
